@@ -68,6 +68,22 @@ type Case struct {
 	Queries []Query           `json:"queries"`
 	Elf     string            `json:"elf,omitempty"`
 	Coq     string            `json:"coq,omitempty"`
+	// history container (Src == "hist"): loads executed in ONE process, in
+	// order; Images[i].Queries receive the results of the steps on image i
+	Images []*Case `json:"images,omitempty"`
+	Steps  []Step  `json:"steps,omitempty"`
+
+	ks []*kern // generator's layout (not serialised)
+}
+
+// Step is one load of a history.  Fresh=false: the image is copied into the
+// history's single reused buffer (overwriting the previous image in place)
+// and loaded from there; Fresh=true: loaded from a fresh slice.
+type Step struct {
+	Img   int    `json:"img"`
+	Name  string `json:"name"`
+	Fresh bool   `json:"fresh"`
+	Q     int    `json:"q"`
 }
 
 func unhex(s string) []byte {
@@ -82,7 +98,7 @@ func unhex(s string) []byte {
 
 type jobs struct {
 	Elfs  []string `json:"elfs"`  // hex, or "@path"
-	Jobs  [][2]int `json:"jobs"`  // (elf index, name index)
+	Jobs  [][4]int `json:"jobs"`  // (elf index, name index, history id or -1, fresh)
 	Names []string `json:"names"`
 }
 
@@ -93,6 +109,7 @@ func callLoader(data []byte, name string) (res *Result) {
 		}
 	}()
 	co := insts.LoadKernelCodeObjectFromBytes(data, name)
+	defer scribble(co)
 	if co == nil {
 		return &Result{Class: "panic", Msg: "nil result"}
 	}
@@ -116,6 +133,33 @@ func callLoader(data []byte, name string) (res *Result) {
 	return r
 }
 
+// scribble overwrites everything reachable from a returned object after it
+// has been recorded: a later load that hands out the same object again, or an
+// object sharing memory with it, then shows up as a difference to the model.
+func scribble(co *insts.KernelCodeObject) {
+	if co == nil {
+		return
+	}
+	for i := range co.Data {
+		co.Data[i] ^= 0xa5
+	}
+	if co.Symbol != nil {
+		co.Symbol.Name += "#"
+		co.Symbol.Value ^= 0x5a5a
+		co.Symbol.Size += 3
+	}
+	if m := co.KernelCodeObjectMeta; m != nil {
+		m.ComputePgmRsrc1 ^= 0xdead
+		m.ComputePgmRsrc2 ^= 0xbeef
+		m.KernargSegmentByteSize += 7
+		m.GroupSegmentByteSize += 11
+		m.WFSgprCount += 8
+		m.WIVgprCount += 4
+		m.EnableSgprKernargSegmentPtr = !m.EnableSgprKernargSegmentPtr
+	}
+	co.Version += 100
+}
+
 func worker(path string, from int) {
 	var js jobs
 	raw, err := os.ReadFile(path)
@@ -127,18 +171,43 @@ func worker(path string, from int) {
 	}
 	w := bufio.NewWriter(os.Stdout)
 	cacheIdx, cache := -1, []byte(nil)
+	curHist, hbuf := -1, []byte(nil)
+	image := func(i int) []byte {
+		e := js.Elfs[i]
+		if strings.HasPrefix(e, "@") {
+			b, err := os.ReadFile(e[1:])
+			if err != nil {
+				os.Exit(3)
+			}
+			return b
+		}
+		return unhex(e)
+	}
 	for k := from; k < len(js.Jobs); k++ {
 		j := js.Jobs[k]
-		if j[0] != cacheIdx {
-			e := js.Elfs[j[0]]
-			if strings.HasPrefix(e, "@") {
-				cache, err = os.ReadFile(e[1:])
-				if err != nil {
-					os.Exit(3)
-				}
+		if j[2] >= 0 {
+			// history step: one buffer per history, overwritten in place
+			img := image(j[0])
+			var data []byte
+			if j[3] != 0 {
+				data = img
 			} else {
-				cache = unhex(e)
+				if j[2] != curHist || cap(hbuf) < len(img) {
+					hbuf = make([]byte, len(img), len(img)+4096)
+					curHist = j[2]
+				}
+				hbuf = hbuf[:len(img)]
+				copy(hbuf, img)
+				data = hbuf
 			}
+			res := callLoader(data, js.Names[j[1]])
+			b, _ := json.Marshal(res)
+			fmt.Fprintf(w, "%d %s\n", k, b)
+			w.Flush()
+			continue
+		}
+		if j[0] != cacheIdx {
+			cache = image(j[0])
 			cacheIdx = j[0]
 		}
 		res := callLoader(cache, js.Names[j[1]])
@@ -164,21 +233,48 @@ func fatalCode(msg string) int {
 func runAll(cases []*Case, repo string) {
 	var js jobs
 	nameIdx := map[string]int{}
-	type ref struct{ c, q int }
+	type ref struct {
+		c *Case
+		q int
+	}
 	var refs []ref
+	name := func(n string) int {
+		if _, ok := nameIdx[n]; !ok {
+			nameIdx[n] = len(js.Names)
+			js.Names = append(js.Names, n)
+		}
+		return nameIdx[n]
+	}
 	for ci, c := range cases {
+		if c.Src == "hist" {
+			base := len(js.Elfs)
+			for _, im := range c.Images {
+				js.Elfs = append(js.Elfs, im.Elf)
+				im.Queries = []Query{}
+			}
+			for si := range c.Steps {
+				st := &c.Steps[si]
+				im := c.Images[st.Img]
+				st.Q = len(im.Queries)
+				im.Queries = append(im.Queries, Query{Name: st.Name})
+				fresh := 0
+				if st.Fresh {
+					fresh = 1
+				}
+				js.Jobs = append(js.Jobs, [4]int{base + st.Img, name(st.Name), ci, fresh})
+				refs = append(refs, ref{im, st.Q})
+			}
+			continue
+		}
+		ei := len(js.Elfs)
 		if c.Src == "shipped" {
 			js.Elfs = append(js.Elfs, "@"+filepath.Join(repo, c.File))
 		} else {
 			js.Elfs = append(js.Elfs, c.Elf)
 		}
 		for qi, q := range c.Queries {
-			if _, ok := nameIdx[q.Name]; !ok {
-				nameIdx[q.Name] = len(js.Names)
-				js.Names = append(js.Names, q.Name)
-			}
-			js.Jobs = append(js.Jobs, [2]int{ci, nameIdx[q.Name]})
-			refs = append(refs, ref{ci, qi})
+			js.Jobs = append(js.Jobs, [4]int{ei, name(q.Name), -1, 0})
+			refs = append(refs, ref{c, qi})
 		}
 	}
 	tmp, err := os.CreateTemp("", "c13jobs*.json")
@@ -210,7 +306,7 @@ func runAll(cases []*Case, repo string) {
 			if err := json.Unmarshal([]byte(line[sp+1:]), &r); err != nil {
 				panic(err)
 			}
-			cases[refs[k].c].Queries[refs[k].q].Res = &r
+			refs[k].c.Queries[refs[k].q].Res = &r
 			from = k + 1
 		}
 		err := cmd.Wait()
@@ -226,7 +322,7 @@ func runAll(cases []*Case, repo string) {
 		if i := strings.Index(msg, " "); i > 0 && len(msg) > 20 {
 			r.Msg = msg[20:]
 		}
-		cases[refs[from].c].Queries[refs[from].q].Res = r
+		refs[from].c.Queries[refs[from].q].Res = r
 		from++
 	}
 }
@@ -377,6 +473,7 @@ func viewOfFile(repo, rel string) *Case {
 func main() {
 	seed := flag.Uint64("seed", 1, "")
 	n := flag.Int("n", 100, "number of generated objects")
+	nh := flag.Int("nh", 20, "number of generated load histories")
 	out := flag.String("out", "", "")
 	replay := flag.String("replay", "", "JSON list of cases to re-run")
 	shipped := flag.Bool("shipped", true, "include the shipped .hsaco files")
@@ -408,7 +505,7 @@ func main() {
 					}
 				}
 				cases[i] = nc
-			} else {
+			} else if c.Src != "hist" {
 				for k := range c.Queries {
 					c.Queries[k].Res = nil
 				}
@@ -422,14 +519,30 @@ func main() {
 		for i := 0; i < *n; i++ {
 			cases = append(cases, genCase(rng.Fork(), i))
 		}
+		hr := vh.NewRng(*seed ^ 0x68697374)
+		for i := 0; i < *nh; i++ {
+			cases = append(cases, genHistory(hr.Fork()))
+		}
 	}
 	for _, c := range cases {
-		if c.Src != "shipped" {
+		switch c.Src {
+		case "shipped":
+		case "hist":
+			for _, im := range c.Images {
+				im.Elf = hex.EncodeToString(WriteELF(im.Secs, symsForWriter(im), im.Abi))
+			}
+		default:
 			c.Elf = hex.EncodeToString(WriteELF(c.Secs, symsForWriter(c), c.Abi))
 		}
 	}
 	runAll(cases, *repo)
 	for _, c := range cases {
+		if c.Src == "hist" {
+			for _, im := range c.Images {
+				im.emitCoq()
+			}
+			continue
+		}
 		c.emitCoq()
 	}
 	b, _ := json.Marshal(cases)
